@@ -25,7 +25,7 @@ try:
     meta["ran"].append({"cmd": "demo.py with change", "exit": d1.returncode, "tail": d1.stdout[-300:]})
     # the property's check against the changed source
     for p in [prop] + extra_props:
-        c = sh(f"cd {root} && LABREA_SRC={wt}/labrea PYTHONPATH={wt} ./check {p}", env=dict(os.environ, LABREA_SRC=f"{wt}/labrea", PYTHONPATH=wt))
+        c = sh(f"cd {root} && LABREA_SRC={wt}/labrea PYTHONPATH={wt} ./check {p}", env=dict(os.environ, LABREA_SRC=f"{wt}/labrea", PYTHONPATH=wt, VERIF_EVIDENCE_DIR="/tmp/seed-evidence"))
         meta["ran"].append({"cmd": f"./check {p} (with change)", "exit": c.returncode, "lines": [l for l in c.stdout.splitlines() if l.startswith(("VIOLATION", "UNDECIDED", "KNOWN", p))][:8]})
     sh(f"git -C {wt} checkout -- .")
     d0 = sh(f"cd /tmp && /venv/bin/python {src}/demo.py", env=env)
